@@ -47,6 +47,9 @@ func gen(t *rapid.T) Case {
 	}
 	if rapid.Bool().Draw(t, "md") {
 		c.Mgr.Metadata = map[string]string{"verif-general": rapid.StringMatching("[a-z0-9]{1,8}").Draw(t, "mdval"), "verif-second": "2"}
+		if c.Mgr.PerNodeMD && rapid.Bool().Draw(t, "sharedKey") {
+			c.Mgr.Metadata["verif-shared"] = "all-nodes" // a key the per-node metadata carries as well
+		}
 	}
 	up := make([]bool, n)
 	for s := 0; s < n; s++ {
@@ -272,7 +275,13 @@ func once(c Case) outcome {
 			cbs[k]++
 			id := client.IDs[e.Server]
 			for mk, mv := range c.Mgr.Metadata {
-				if got := e.MD[mk]; len(got) == 0 || got[0] != mv {
+				has := false
+				for _, g := range e.MD[mk] {
+					if g == mv {
+						has = true
+					}
+				}
+				if !has {
 					o.key, o.msg = "C10/metadata/general-missing", fmt.Sprintf("connection %s: metadata %q=%q missing from the connect callback's context (has %v)", k, mk, mv, e.MD)
 					return o
 				}
@@ -280,6 +289,16 @@ func once(c Case) outcome {
 			if c.Mgr.PerNodeMD {
 				if got := e.MD["verif-node"]; len(got) == 0 || got[0] != fmt.Sprint(id) {
 					o.key, o.msg = "C10/metadata/per-node-missing", fmt.Sprintf("connection %s to node %d: per-node metadata missing or wrong: %v", k, id, e.MD)
+					return o
+				}
+				hasShared := false
+				for _, g := range e.MD["verif-shared"] {
+					if g == fmt.Sprintf("node-%d", id) {
+						hasShared = true
+					}
+				}
+				if !hasShared {
+					o.key, o.msg = "C10/metadata/per-node-missing", fmt.Sprintf("connection %s to node %d: the per-node value of a key that the general metadata carries too is missing: %v", k, id, e.MD)
 					return o
 				}
 				for mk := range e.MD {
@@ -339,7 +358,7 @@ func run(c Case) vt.Verdict {
 func TestProp(t *testing.T) {
 	vt.Main(t, vt.Spec[Case]{
 		ID:           "C10",
-		Rule:         "fault-sequence generation: 1-3 nodes, any subset down when the manager is created, a generated sequence of stop / start events, traffic calls of 8 kinds with 150 ms deadlines and sleeps (so crashes strike with calls pending and during back-off), all nodes listening again at the end; manager metadata and per-node metadata function generated; gorums' and grpc's back-off set to 400 or 1200 ms. Oracle: (a) repeated RPCs reach every node that listens again within the bound, without recreating manager or configuration, and then calls of 1-3 further generated types (quorum, per-node, async, correctable, stream, multicast, per-node multicast, unicast) reach every node as well (3 attempts each); (b) for the first RPC whose request the restarted server handled, the time from the handler's exit to the call's return must stay below half the back-off (replies otherwise take < 5 ms; a slow reply is confirmed by a second independent run of the case); a probe that the restarted server handled and answered must not fail at the caller (reported if a second independent run loses the reply again); (c) every accepted stream triggered exactly one connect callback whose context carries all general pairs and exactly the per-node pairs of that node's id; non-trivial = some node was restarted or came up after the manager was created",
+		Rule:         "fault-sequence generation: 1-3 nodes, any subset down when the manager is created, a generated sequence of stop / start events, traffic calls of 8 kinds with 150 ms deadlines and sleeps (so crashes strike with calls pending and during back-off), all nodes listening again at the end; manager metadata and per-node metadata function generated (in half of the cases with both, one key is carried by both and both values must arrive); gorums' and grpc's back-off set to 400 or 1200 ms. Oracle: (a) repeated RPCs reach every node that listens again within the bound, without recreating manager or configuration, and then calls of 1-3 further generated types (quorum, per-node, async, correctable, stream, multicast, per-node multicast, unicast) reach every node as well (3 attempts each); (b) for the first RPC whose request the restarted server handled, the time from the handler's exit to the call's return must stay below half the back-off (replies otherwise take < 5 ms; a slow reply is confirmed by a second independent run of the case); a probe that the restarted server handled and answered must not fail at the caller (reported if a second independent run loses the reply again); (c) every accepted stream triggered exactly one connect callback whose context carries all general pairs and exactly the per-node pairs of that node's id; non-trivial = some node was restarted or came up after the manager was created",
 		Gen:          gen,
 		Run:          run,
 		TrackCurrent: true,
